@@ -27,33 +27,27 @@ def detect_pls_header(data):
 
 
 def detect_xspf_header(data):
-    data = data[0:150]
-    if b"xspf" not in data.lower():
-        return False
-
-    try:
-        data = io.BytesIO(data)
-        for _event, element in ET.iterparse(data, events=["start"]):
-            return element.tag.lower() == "{http://xspf.org/ns/0/}playlist"
-    except (ET.ParseError, LookupError, ValueError):
-        # LookupError/ValueError: unknown or unsupported encoding declared
-        pass
-    return False
+    return _root_tag(data) == "{http://xspf.org/ns/0/}playlist"
 
 
 def detect_asx_header(data):
-    data = data[0:50]
-    if b"asx" not in data.lower():
-        return False
+    return _root_tag(data) == "asx"
 
+
+def _root_tag(data):
+    """Lower-cased tag of the XML root element, or None if data is not XML.
+
+    Only the start of the document is looked at: iterparse hands out the root
+    as soon as its start tag has been read, whatever precedes it (XML
+    declaration, comments) and whatever the encoding.
+    """
     try:
-        data = io.BytesIO(data)
-        for _event, element in ET.iterparse(data, events=["start"]):
-            return element.tag.lower() == "asx"
+        for _event, element in ET.iterparse(io.BytesIO(data), events=["start"]):
+            return element.tag.lower()
     except (ET.ParseError, LookupError, ValueError):
         # LookupError/ValueError: unknown or unsupported encoding declared
         pass
-    return False
+    return None
 
 
 def parse_extm3u(data):
